@@ -867,7 +867,7 @@ impl Entities {
     /// Same semantics as `b in a` in the Cedar language
     pub fn is_ancestor_of(&self, a: &EntityUid, b: &EntityUid) -> bool {
         match self.0.entity(b.as_ref()) {
-            Dereference::Data(b) => b.is_descendant_of(a.as_ref()),
+            Dereference::Data(e) => a == b || e.is_descendant_of(a.as_ref()), // `b in a` is reflexive
             _ => a == b, // if b doesn't exist, `b in a` is only true if `b == a`
         }
     }
